@@ -24,6 +24,10 @@ type DeployScript struct {
 	Schema   string `json:"schema,omitempty"`    // schema variant served by this deployment ("" = script default)
 	CloseErr string `json:"close_err,omitempty"` // Close() returns this error (after closing)
 	WriteErr bool   `json:"write_err,omitempty"` // engine-side writes fail after hello
+	// DelayMs makes Deploy() take this long, ignoring the context (a deployer that cannot be interrupted).
+	DelayMs int `json:"delay_ms,omitempty"`
+	// WriteErrAfterStart: engine-side writes fail once the step execution has started (a connection that dies mid-run).
+	WriteErrAfterStart bool `json:"write_err_after_start,omitempty"`
 	// CloseDelayMs makes Close() take this long (a container that is slow to stop): the connection counts as open until then.
 	CloseDelayMs int `json:"close_delay_ms,omitempty"`
 }
@@ -129,6 +133,9 @@ func (c *connector) Deploy(ctx context.Context, src string) (deployer.Plugin, er
 		Log("deploy-fail", src, 0, "", "ctx done (blocking deploy)")
 		return nil, fmt.Errorf("scripted deployer: context done while deploying %s", src)
 	}
+	if ds.DelayMs > 0 {
+		time.Sleep(time.Duration(ds.DelayMs) * time.Millisecond)
+	}
 	if ds.Fail != "" || c.cfg.Fail {
 		msg := ds.Fail
 		if msg == "" {
@@ -140,7 +147,7 @@ func (c *connector) Deploy(ctx context.Context, src string) (deployer.Plugin, er
 	stdinR, stdinW := io.Pipe()   // engine writes -> plugin reads
 	stdoutR, stdoutW := io.Pipe() // plugin writes -> engine reads
 	id := connCounter.Add(1)
-	p := &conn{id: id, src: src, r: stdoutR, w: stdinW, done: make(chan struct{}), closeErr: ds.CloseErr, writeErr: ds.WriteErr, closeDelay: ds.CloseDelayMs}
+	p := &conn{id: id, src: src, r: stdoutR, w: stdinW, done: make(chan struct{}), closeErr: ds.CloseErr, writeErr: ds.WriteErr, closeDelay: ds.CloseDelayMs, writeErrAfterStart: ds.WriteErrAfterStart}
 	OpenConns.Add(1)
 	Log("deploy-ok", src, id, "", map[string]any{"nth": int64(nth)})
 	go serve(p, sc, ds, stdinR, stdoutW)
@@ -158,11 +165,18 @@ type conn struct {
 	closeErr string
 	writeErr bool
 	closeDelay int
+	writeErrAfterStart bool
+	started  atomic.Bool
 	helloed  atomic.Bool
 }
 
 func (p *conn) Read(b []byte) (int, error) { return p.r.Read(b) }
 func (p *conn) Write(b []byte) (int, error) {
+	if p.writeErrAfterStart && p.started.Load() {
+		// the connection no longer takes anything from the engine, but what the plugin says still arrives
+		p.wonce.Do(func() { Log("write-fault", p.src, p.id, "", "writes only") })
+		return 0, fmt.Errorf("scripted write failure on conn %d", p.id)
+	}
 	if p.writeErr && p.helloed.Load() {
 		// a dead plugin: the engine's writes fail and its reads see EOF
 		p.wonce.Do(func() {
